@@ -76,6 +76,10 @@ func v4Packet(variant int) []byte {
 	copy(b[28:], []byte{2, 0, 0xaa, 0xbb, 0xcc, byte(variant)})
 	copy(b[44:], fmt.Sprintf("server-name-%d.example.org", variant))
 	copy(b[108:], fmt.Sprintf("/boot/file-%d.efi", variant))
+	if variant%5 == 3 {
+		copy(b[44:108], bytes.Repeat([]byte{'s'}, 64))
+		copy(b[108:236], bytes.Repeat([]byte{'f'}, 128))
+	}
 	copy(b[236:], []byte{99, 130, 83, 99})
 	o := func(code int, v ...byte) { b = append(b, byte(code), byte(len(v))); b = append(b, v...) }
 	o(53, byte(1+variant%8))
@@ -102,6 +106,14 @@ func v4Packet(variant int) []byte {
 	o(125, 0, 0, 0x0d, 0xe9, 5, 1, 3, 'x', 'y', 'z')
 	o(66, []byte("tftp.example.org")...)
 	o(67, []byte("pxelinux.0")...)
+	switch variant % 4 {
+	case 0:
+		// a single instance of the maximum length, no continuation
+		o(209, bytes.Repeat([]byte{byte(0x30 + variant)}, 255)...)
+	case 2:
+		o(209, bytes.Repeat([]byte{byte(0x30 + variant)}, 254)...)
+		o(210) // zero-length option
+	}
 	if variant%2 == 1 {
 		// a long option split over several instances (RFC 3396)
 		long := bytes.Repeat([]byte{byte(0x40 + variant)}, 300)
@@ -130,23 +142,24 @@ func v6Options(variant int) [][]byte {
 	v := byte(variant)
 	duids := [][]byte{
 		cat(be16(1), be16(1), be32(0x2a000000|uint32(variant)), []byte{2, 0, 0, 0xaa, 0xbb, v}), // LLT
-		cat(be16(2), be32(32473), []byte{9, 8, 7, 6, v}),                                       // EN
-		cat(be16(3), be16(1), []byte{2, 0, 0, 0xcc, 0xdd, v}),                                  // LL
-		cat(be16(4), bytes.Repeat([]byte{0x10 + v}, 16)),                                       // UUID
+		cat(be16(2), be32(32473), []byte{9, 8, 7, 6, v}),                                        // EN
+		cat(be16(3), be16(1), []byte{2, 0, 0, 0xcc, 0xdd, v}),                                   // LL
+		cat(be16(4), bytes.Repeat([]byte{0x10 + v}, 16)),                                        // UUID
+		cat(be16(0x00ff), []byte("opaque-duid-"), []byte{v}),                                    // a type the library keeps opaque
 	}
 	v4inner := v4Packet(variant)
 	return [][]byte{
-		opt6(1, duids[variant%4]),
-		opt6(2, duids[(variant+1)%4]),
-		opt6(3, []byte{0xaa, 0xbb, 0, v}, be32(1000), be32(2000), iaAddr("2001:db8::10", status6(0, "ok")), iaAddr("2001:db8::11"), status6(2, "NoAddrsAvail")),
+		opt6(1, duids[variant%5]),
+		opt6(2, duids[(variant+2)%5]),
+		opt6(3, []byte{0xaa, 0xbb, 0, v}, be32(1000), be32(2000), iaAddr("2001:db8::10", status6(0, "ok"), opt6(65010, []byte("addr-private"))), iaAddr("2001:db8::11"), status6(2, "NoAddrsAvail"), opt6(65011, []byte("ia-private-"), []byte{v})),
 		opt6(4, []byte{0xab, 0xcd, 0, v}, iaAddr("2001:db8:1::5"), status6(0, "fine")),
-		opt6(25, []byte{0xcc, 0, 0, v}, be32(100), be32(200), iaPrefix("2001:db8:100::", 56, status6(0, "pd ok")), iaPrefix("2001:db8:200::", 60)),
+		opt6(25, []byte{0xcc, 0, 0, v}, be32(100), be32(200), iaPrefix("2001:db8:100::", 56, status6(0, "pd ok")), iaPrefix("2001:db8:200::", 60, opt6(65012, []byte("prefix-private"))), iaPrefix("::", 0), opt6(65013, []byte{v, v, v})),
 		opt6(6, be16(23), be16(24), be16(56), be16(59)),
 		opt6(7, []byte{v}),
 		opt6(8, be16(100+variant)),
 		status6(1, "UnspecFail: something went wrong"),
 		opt6(14),
-		opt6(15, lv16("class-one", "class-two-"+string(rune('a'+variant%26)))),
+		opt6(15, lv16("class-one", "", "class-two-"+string(rune('a'+variant%26)))),
 		opt6(16, be32(3561), lv16("vendor-class-data", "more")),
 		opt6(17, be32(40808), cat(be16(1), be16(5), []byte("hello"), be16(2), be16(3), []byte{1, 2, v})),
 		opt6(18, []byte("eth0/1/"+string(rune('0'+variant%10)))),
@@ -408,12 +421,12 @@ func accessors(sb *strings.Builder, v reflect.Value, depth int, observable bool)
 // ---------------------------------------------------------------- scenario
 
 type heldMsg struct {
-	idx      int
-	name     string
-	m        anyMsg
-	ref      snapshot
-	bufIdx   int
-	readNo   int // how many reads had gone into its buffer when it was decoded
+	idx    int
+	name   string
+	m      anyMsg
+	ref    snapshot
+	bufIdx int
+	readNo int // how many reads had gone into its buffer when it was decoded
 }
 
 type bufState struct {
@@ -422,13 +435,13 @@ type bufState struct {
 	conn *Conn
 	net  *Net
 
-	pool    [][]byte
-	reads   []int // per buffer: number of reads so far
-	queue   []*heldMsg
-	qGate   []chan struct{}
-	closed  bool
-	checked int
-	types   map[string]int
+	pool           [][]byte
+	reads          []int // per buffer: number of reads so far
+	queue          []*heldMsg
+	qGate          []chan struct{}
+	closed         bool
+	checked        int
+	types          map[string]int
 	decodeFailures []string
 }
 
@@ -630,12 +643,22 @@ func (st *bufState) use(h *heldMsg, w int) {
 		s.Violate("D-alias", "message %d (decoded from reusable buffer %d, overwritten %d time(s) since): %s", h.idx, h.bufIdx, overwrites, d)
 		return
 	}
-	// encode side: the caller may do what it likes with the bytes ToBytes returned
+	// encode side: the caller may do what it likes with the bytes ToBytes returned,
+	// also while it holds the result of another encoding
+	out0 := h.m.ToBytes()
 	out1 := h.m.ToBytes()
 	pat := t.Choose(4)
 	scribble(out1, pat, h.idx)
 	s.Fault(fmt.Sprintf("scribble-output-%d", pat))
+	if !bytes.Equal(out0, h.ref.enc) {
+		s.Violate("E-output-shared", "message %d: two encodings share memory: modifying the bytes returned by one ToBytes call changed the bytes returned by another (first difference at %d)", h.idx, firstDiff(out0, h.ref.enc))
+		return
+	}
 	out2 := h.m.ToBytes()
+	if !bytes.Equal(out0, h.ref.enc) {
+		s.Violate("E-output-shared", "message %d: a later ToBytes call rewrote the bytes an earlier call had returned", h.idx)
+		return
+	}
 	if !bytes.Equal(out2, h.ref.enc) {
 		s.Violate("E-output-shared", "message %d: after the caller modified the bytes returned by ToBytes, the next encoding differs (first difference at %d)", h.idx, firstDiff(out2, h.ref.enc))
 		return
